@@ -103,6 +103,8 @@ MUTANTS = [  # (contract module, qualname, file, regex, replacement, expect)  ex
  ("contracts.c15", "DAG.add_edges_from", "pgmpy/base/DAG.py", r"            for index in range\(len\(ebunch\)\):\n                self.add_edge\(ebunch\[index\]\[0\], ebunch\[index\]\[1\], weight=weights\[index\]\)", "            for index, edge in enumerate(ebunch):\n                self.add_edge(edge[0], edge[1], weight=weights[index])", "hold"),
  ("contracts.c15", "DAG.add_edges_from", "pgmpy/base/DAG.py", r"            for index in range\(len\(ebunch\)\):\n                self.add_edge\(ebunch\[index\]\[0\], ebunch\[index\]\[1\], weight=weights\[index\]\)", "            for index, edge in enumerate(ebunch):\n                if index:\n                    self.add_edge(edge[0], edge[1], weight=weights[index])", "break"),
  ("contracts.c08", "DAG.active_trail_nodes", "pgmpy/base/DAG.py", r"            if include_latents:\n                active_trails\[start\] = active_nodes\n            else:\n                active_trails\[start\] = active_nodes - self.latents", "            if not include_latents:\n                active_nodes = active_nodes - self.latents\n            active_trails[start] = active_nodes", "hold"),
+ ("contracts.c15", "BayesianNetwork.add_cpds", "pgmpy/models/BayesianNetwork.py", r"            for prev_cpd_index in range\(len\(self.cpds\)\):\n                if self.cpds\[prev_cpd_index\].variable == cpd.variable:", "            for prev_cpd_index, prev_cpd in enumerate(self.cpds):\n                if prev_cpd.variable == cpd.variable:", "hold"),
+ ("contracts.c15", "BayesianNetwork.add_cpds", "pgmpy/models/BayesianNetwork.py", r"            for prev_cpd_index in range\(len\(self.cpds\)\):\n                if self.cpds\[prev_cpd_index\].variable == cpd.variable:", "            for prev_cpd_index, prev_cpd in enumerate(self.cpds[1:]):\n                if prev_cpd.variable == cpd.variable:", "break"),
  ("contracts.c15", "MarkovNetwork.add_factors", "pgmpy/models/MarkovNetwork.py", r"set\(factor.variables\) - set\(factor.variables\).intersection\(\n                set\(self.nodes\(\)\)\n            \)", "set(factor.variables[1:]) - set(self.nodes())", "break"),
 ]
 
